@@ -225,6 +225,7 @@ func Run(id, repo, verif, tier string, seed int, writeBaseline bool) int {
 		}
 	}
 	res := run.Discharge(g.Jobs, env.Timeout, seed, 12)
+	bounded := []string{} // bounded stand-ins: run on every check, never counted as discharged
 	dynamic := []interface{}{} // thorough tier: random evaluation on the real code, never counted as discharged
 	for _, sr := range g.Static {
 		kind, backend := sr.Kind, sr.Backend
@@ -232,12 +233,18 @@ func Run(id, repo, verif, tier string, seed int, writeBaseline bool) int {
 			kind, backend = "dataflow", "ssa-dataflow"
 		}
 		o := &symex.Obligation{Name: sr.Name, Kind: kind, Func: sr.Func, Pos: sr.Pos, Goal: backend}
+		if sr.ReplaySrc != "" {
+			o.Meta = map[string]string{"rel": sr.ReplayPkg, "executed_test": sr.ReplaySrc}
+		}
 		st := smt.Unsat
 		if !sr.OK {
 			st = smt.Sat
 		}
 		if kind == "dynamic" {
 			dynamic = append(dynamic, map[string]interface{}{"name": sr.Name, "ok": sr.OK, "what": sr.Detail})
+		}
+		if kind == "bounded" {
+			bounded = append(bounded, sr.Name+": "+sr.Detail)
 		}
 		res = append(res, run.Result{Obl: o, Status: st, Solver: backend, Output: sr.Detail})
 	}
@@ -404,8 +411,8 @@ func Run(id, repo, verif, tier string, seed int, writeBaseline bool) int {
 				continue // counted in its carved-out form
 			}
 		}
-		if strings.HasPrefix(n, "dynamic/") {
-			continue // a cross-check by execution, not an obligation
+		if strings.HasPrefix(n, "dynamic/") || strings.HasPrefix(n, "bounded/") {
+			continue // a check by execution, not a discharged obligation
 		}
 		nObl++
 		if groups[n].ok {
@@ -473,7 +480,7 @@ func Run(id, repo, verif, tier string, seed int, writeBaseline bool) int {
 		"inlined_leaf_functions":   inl,
 		"known_findings_seen":      knownSeen,
 		"unverified_remainder":     g.Unverified,
-		"bounded_standins":         []string{},
+		"bounded_standins":         bounded,
 		"dynamic_crosschecks":      dynamic,
 		"vacuity_canaries":         countCanaries(res),
 		"notes":                    g.Notes,
@@ -531,6 +538,15 @@ func lastLines(s string, n int) string {
 // tryReplay: stage 2 (bounded model) and replay on the real code.
 func tryReplay(env *Env, r *run.Result, rf *ReplayFile) bool {
 	o := r.Obl
+	if (o.Kind == "dynamic" || o.Kind == "bounded") && o.Meta["executed_test"] != "" {
+		// the failing input was found by running the real code: the test itself is the replay
+		rf.ReplayPackage = o.Meta["rel"]
+		rf.ReplayTest = o.Meta["executed_test"]
+		rf.ReplayOutput = r.Output
+		rf.ModelReproduced = true
+		rf.Note += "; failing input found by executing the real code (run the test with go test -overlay in the package above)"
+		return true
+	}
 	if o.Replay == "" || len(o.Witness) == 0 {
 		rf.Note += "; no replay template for this obligation class"
 		return false
